@@ -298,7 +298,9 @@ def check_annotations(res, acc, inputs, pad_maxlen=6):
 
 E2E_ANNOT_ALPHABET = b"a */\t"
 E2E_DESC_LINES = [b"a", b" a", b"\ta", b"  a b", b"(a)", b"a (b) c", b"#a", b"a # b", b"a GET", b"x Title y", b"", b" ", b"a  ", b"// a",
-                  b"a /* b */", b"- a", b"200a", b"a)", b"a("]
+                  b"a /* b */", b"- a", b"200a", b"a)", b"a(",
+                  # lines that begin like a response code or a keyword without being one
+                  b"25 requests", b"10% off", b"12:30", b"2xx", b"59", b"  42 a", b"GETa", b"Tagsx", b"TAGS", b"Pathological", b"get"]
 
 
 def _json_of(line):
@@ -360,6 +362,10 @@ HOSTS = [
     ("Method", b"JSIGHT 0.3\nURL /r\n  Protocol json-rpc-2.0\n  Method foo\n    Description\n%s\n    Params\n      {}\nGET /last\n  200 any\n",
      lambda j: j.get("interactions", {}).get("json-rpc-2.0 foo /r", {}).get("description")),
     ("TAG", b"JSIGHT 0.3\nTAG @t\n  Description\n%s\nGET /last\n  200 any\n", lambda j: j.get("tags", {}).get("@t", {}).get("description")),
+    # one Description, in a macro, pasted twice: the same bytes of the file are read (and normalised) twice
+    ("PASTE2", b"JSIGHT 0.3\nMACRO @d\n(\n  Description\n%s\n)\nGET /x\n  PASTE @d\n  200 any\nGET /last\n  PASTE @d\n  200 any\n",
+     lambda j: (lambda a, b: a if a == b else "first paste %r, second paste %r" % (a, b))(
+         j.get("interactions", {}).get("http GET /x", {}).get("description"), j.get("interactions", {}).get("http GET /last", {}).get("description"))),
 ]
 
 
@@ -386,7 +392,7 @@ def check_e2e_descriptions(res, acc, tier, rng):
             and not any(re.match(rb"^[ \t]*(%s|[1-5][0-9][0-9])" % b"|".join(KW_BYTES), l) for l in re.split(b"[\r\n]+", t))
         paren_ok = not any(l.lstrip(b" \t").startswith(b")") for l in re.split(b"[\r\n]+", t))
         for hi, (hn, tpl, get) in enumerate(HOSTS):
-            if tier == "quick" and hi != (len(t) + t.count(b"a")) % 4 and len(t) > 6:
+            if tier == "quick" and hi != (len(t) + t.count(b"a")) % len(HOSTS) and len(t) > 6:
                 continue
             if bare_ok:
                 cases.append((t, hn, "bare", tpl % t, get))
